@@ -735,7 +735,7 @@ _add_rt2("C09", "today's LOOP form of execute_fields_serially (`while True` + in
          "form (cb on another thread between map_value returning and the hand-over) is exercised by interleaving_stage only.")
 _add_rt2("C16", "named probe abort-nested-coroutines (corr/C16_cancel.py; hunt round 2, C16-1): graphql() on asyncio with coroutine resolvers only, a root field "
                 "raising ExecutionError next to an object / nested object / list field with coroutine children, every offset -1..+4 of loop ticks between the "
-                "two, both document orders, leaves returning at once or one tick later (125 schedules quick / 184 thorough); oracle: every started field hook "
+                "two, both document orders, the aborting field at the root or one level below, leaves returning at once or one tick later (148 schedules quick / 230 thorough); oracle: every started field hook "
                 "gets exactly one end hook, inside the execution stage. Stages of the check run under the wall-clock backstop C08_world.run_stages "
                 "(c16:never-completes:stage:<name>).",
          "Known finding N7 (c16:abort-nested-coroutines:asyncio:child:end-missing): children cancelled BEFORE the first step of their task never run the body "
